@@ -262,23 +262,68 @@ produces, given the callback invocations -/
 def responses (fired : List Fired) : List Bool :=
   (fired.foldl (fun l f => l.sendResponse f.arg) Leaf.init).sent
 
-/-! ### the step order of `completeStage` the two variants stand for (tied to the generated fact) -/
+/-! ### the source step orders the instructions stand for
 
+The fact extractor (`harness/internal/extract/facts_c19.go`) re-reads these from /repo on every run
+(calls, field stores, returns and branch conditions in source order, prefixed by the enclosing
+branch / closure / defer) and `Props/C19.lean` proves the regenerated lists equal to the ones below. -/
+
+/-- the variant the regenerated fact `completePassesFirstError` selects -/
+def cfgOf (passesFirstError : Bool) : Cfg := ⟨if passesFirstError then .first else .own⟩
+
+/-- `pipelineStateMachine.completeStage`: `track` = the section between Lock and Unlock, `dec` = the
+`Dec() == 0` test, then `fire e e` (own) resp. `load`, `fire firstErr` (first) -/
 def completeStageOrder : CompleteArg → List String
-  | .own => ["lock", "track", "unlock", "dec", "complete:own"]
-  | .first => ["lock", "record-first", "track", "unlock", "dec", "complete:first"]
+  | .own => ["sm.mutex.Lock()", "then:s.stage.Complete()", "sm.mutex.Unlock()",
+             "if sm.pending.Dec() == 0", "then:sm.complete(err)"]
+  | .first => ["sm.mutex.Lock()", "if err != nil && sm.err == nil", "then:sm.err = err",
+               "then:s.stage.Complete()", "sm.mutex.Unlock()",
+               "if sm.pending.Dec() == 0", "then:sm.firstError()", "then:sm.complete(sm.firstError())"]
 
-/-- the order inside `pipeline.executeStage` and its two closures that `start/register/launch/exec/handler` mirror -/
-def executeStageOrder : List String :=
-  ["check:isCompleted", "sm.executeStage", "stage.Execute",
-   "complete:NextStages", "complete:loop:executeStage", "complete:completeStage:nil",
-   "err:completeStage:err"]
+/-- `pipelineStateMachine.firstError` (`load`); absent in the `own` variant -/
+def firstErrorOrder : CompleteArg → List String
+  | .own => []
+  | .first => ["sm.mutex.Lock()", "defer:sm.mutex.Unlock()", "return sm.err"]
 
-/-- `pipeline.Execute`: deferred recover → `sm.complete(err)`; body → `executeStage` -/
-def executeOrder : List String := ["recover:sm.complete:err", "executeStage"]
+/-- `pipelineStateMachine.complete` (`fire`) -/
+def completeOrder : List String :=
+  ["if sm.completed.CompareAndSwap(false, true) && sm.completedCallbackFn != nil",
+   "then:sm.completedCallbackFn(err)"]
 
-/-- `baseStage.Execute`: pooled → Submit(NewTask(execFn, errHandle)), else execFn; execFn: err → errHandle, else completeHandle -/
-def baseExecuteOrder : List String :=
-  ["execFn:execute", "execFn:err:errHandle", "execFn:ok:completeHandle", "async:Submit:NewTask(execFn,errHandle)", "sync:execFn"]
+/-- `pipelineStateMachine.isCompleted` (read by `start`) -/
+def isCompletedOrder : List String := ["sm.completed.Load()", "return sm.completed.Load()"]
+
+/-- `pipelineStateMachine.executeStage` (`register`) -/
+def registerOrder : List String := ["sm.mutex.Lock()", "defer:sm.mutex.Unlock()", "sm.pending.Inc()"]
+
+/-- `pipeline.Execute`: the top-level recover calls `sm.complete(err)` -/
+def pipelineExecuteOrder : List String :=
+  ["defer:λ1:recover()", "defer:λ1:then:p.sm.complete(err)", "p.executeStage(\"\", stage)"]
+
+/-- `pipeline.executeStage` (`start`, `register`, `launch`; λ1 = `handler`, λ2 = the error handler) -/
+def pipelineExecuteStageOrder : List String :=
+  ["if stage == nil || p.sm.isCompleted()", "p.sm.executeStage(parentStageID, stageID, stage)",
+   "stage.Execute(stage.Plan(), (func() literal), (func(err error) literal))",
+   "λ1:stage.NextStages()", "λ1:loop:p.executeStage(stageID, nextStages[idx])",
+   "λ1:p.sm.completeStage(stageID, nil)", "λ2:p.sm.completeStage(stageID, err)"]
+
+/-- `baseStage.Execute` (`launch`, `exec`) -/
+def baseStageExecuteOrder : List String :=
+  ["λ1:stage.execute(node)", "λ1:then:errHandle(err)", "λ1:else:completeHandle()", "if stage.IsAsync()",
+   "then:concurrent.NewTask((func() literal), errHandle)",
+   "then:stage.execPool.Submit(stage.ctx, concurrent.NewTask((func() literal), errHandle))",
+   "then:λ1:execFn()", "else:execFn()"]
+
+def baseStageIsAsyncOrder : List String := ["return stage.execPool != nil && stage.ctx != nil"]
+
+/-- `workerPool.execTask`: recover → `task.panicHandle(err)` -/
+def execTaskOrder : List String :=
+  ["defer:λ1:recover()", "defer:λ1:then:if task.panicHandle != nil",
+   "defer:λ1:then:then:task.panicHandle(err)", "task.Exec()"]
+
+/-- `LeafExecuteContext.SendResponse` (`Leaf.sendResponse`) -/
+def sendResponseOrder : List String :=
+  ["if ctx.completed.CompareAndSwap(false, true)", "then:then:ctx.sendResponse(nil, err)",
+   "then:then:ctx.sendResponse(nil, err)", "then:ctx.sendResponse(resultSet, nil)"]
 
 end LinVerif.Pipeline
